@@ -27,13 +27,21 @@ const rule = "cases = initial tree x payload (valid / undecodable / bad base64 /
 
 func main() {
 	if os.Getenv(childEnv) == "" {
-		os.Exit(parentMain())
+		// parent: generator + framework; every case is executed by a supervised child process
+		// holding the real engine (its environment is read at package-init time)
+		sv := newSupervisor()
+		code := 0
+		func() {
+			defer sv.shutdown()
+			proto.Main(proto.Harness{Rule: rule, Gen: gen, Exec: sv.exec})
+		}()
+		os.Exit(code)
 	}
 	zerolog.SetGlobalLevel(zerolog.Disabled)
 	var err error
 	builtinMetrics, err = os.ReadFile(newLayout(os.Getenv(rootEnv)).defMet)
 	must(err)
-	proto.Main(proto.Harness{Rule: rule, Gen: gen, Exec: execCase})
+	childLoop()
 }
 
 // ------------------------------------------------------------------ op parsing (mirrors the Lean driver)
@@ -363,6 +371,9 @@ loop:
 	w.ctl.Gate(yieldPoint, false)
 	w.ctl.ClearFaults()
 	w.ha.set(0)
+	if r.st == 0 {
+		return 0, "transport-error:" + r.body, mid
+	}
 	return r.st, phaseOf(r.st, r.body), mid
 }
 
@@ -411,36 +422,31 @@ func (w *world) orderOK(p *putOp, before treeSnap) bool {
 	return len(rlog) == diff
 }
 
-var (
-	nCases  int
-	tStart  = time.Now()
-	tLast   = time.Now()
-	dbgRate = os.Getenv("VERIF_DEBUG") != ""
-)
+// stats collected while a case runs in the child; shipped to the parent with the answers
+type caseStats struct {
+	counts     []string
+	nontrivial bool
+}
 
-func execCase(c proto.Case, o *proto.Out) []string {
+func (c *caseStats) Count(k string) { c.counts = append(c.counts, k) }
+
+// runCase executes one case against the real engine (child side).
+func runCase(ops []string) ([]string, *caseStats) {
 	w := getWorld()
-	nCases++
-	if dbgRate && nCases%500 == 0 {
-		fmt.Fprintf(os.Stderr, "c08: %d cases, last 500 in %v, total %v\n", nCases, time.Since(tLast).Round(time.Millisecond), time.Since(tStart).Round(time.Second))
-		tLast = time.Now()
-	}
-	outs := make([]string, len(c.Ops))
-	x := &caseRun{w: w, c: c, o: o}
-	for i := range c.Ops {
+	outs := make([]string, len(ops))
+	x := &caseRun{w: w, c: proto.Case{Ops: ops}, o: &caseStats{}}
+	for i := range ops {
 		outs[i] = x.execOp(i)
 	}
 	w.bodies.closeAll()
-	if x.nontrivial {
-		o.NonTrivial(strings.Join(c.Ops, "|") + "#" + strings.Join(outs, "|"))
-	}
-	return outs
+	x.o.nontrivial = x.nontrivial
+	return outs, x.o
 }
 
 type caseRun struct {
 	w          *world
 	c          proto.Case
-	o          *proto.Out
+	o          *caseStats
 	live       bool
 	nontrivial bool
 	replaying  bool // re-running a prefix of the case to re-create its state: no statistics
@@ -464,10 +470,13 @@ func (x *caseRun) execOp(i int) string {
 		w.ctl.Gate(yieldPoint, false)
 		w.ha.set(0)
 		w.writeTree(entries)
-		st, _ := w.do("POST", "/load_flows", nil)
+		st, body := w.do("POST", "/load_flows", nil)
 		x.live = st == 200
 		if x.live {
 			return "ok"
+		}
+		if st == 0 {
+			return "err:transport-error:" + body
 		}
 		return "err:load"
 	case ws[0] == "ls" && len(ws) == 1:
@@ -537,6 +546,10 @@ func (x *caseRun) execOp(i int) string {
 		m := "%e"
 		if len(mid) > 0 {
 			m = strings.Join(mid, ";")
+		}
+		if st == 0 {
+			o.Count("transport-error")
+			return fmt.Sprintf("status=%s mid=%s", ph, m) // status=transport-error:<class>
 		}
 		return fmt.Sprintf("status=%d phase=%s mid=%s", st, ph, m)
 	}
